@@ -1296,6 +1296,7 @@ fn main() {
         let cfg = vgad::laws::Cfg { max_combinations: 100_000, max_real_runs: 4, ..Default::default() };
         let max_regions = 32usize;
         cpu_marks.push(("laws", cpu_s()));
+        cx.next_group_share(420.0);
         cx.run_cases("laws", &lcases, |c| {
             let mut out = CaseOut::batch();
             fops::NONCANON_SEEN.with(|x| x.set(0));
